@@ -373,6 +373,13 @@ def class_(
     # TODO: Add correct classmethod/staticmethod to decorate function using `annotate_ancestry` and first-field checks
     # Such that the `self.` or `cls.` rewrite only applies to non-staticmethods
     # assert internal_body, "Expected `internal_body` to have contents"
+    if (
+        len(internal_body) == 1
+        and isinstance(internal_body[0], FunctionDef)
+        and internal_body[0].name == "__call__"
+    ):
+        # The class this description was parsed from already carried its body as `__call__`: re-home that body, not the method
+        internal_body = internal_body[0].body
     if param_names:
         if internal_body:
             internal_body = list(
